@@ -478,6 +478,8 @@ type VProfile struct {
 	JSONTimes  bool // times restricted to years 1..9999
 	NoNilElems bool // no nil entries in pointer slices
 	Small      bool // keep containers tiny
+	// extreme: every integer at a maximal-length encoding (decided per value by GenVal)
+	extreme bool
 }
 
 type vgen struct {
@@ -489,6 +491,10 @@ type vgen struct {
 func GenVal(t *rapid.T, ts *TSpec, p VProfile) Val {
 	if p.Depth == 0 {
 		p.Depth = 3
+	}
+	if rapid.IntRange(0, 11).Draw(t, "extreme") == 0 {
+		// one value in twelve has ALL its integers at their longest encodings: worst-case sizes
+		p.extreme = true
 	}
 	g := &vgen{t: t, p: p}
 	return g.val(ts, "", p.Depth)
@@ -535,6 +541,18 @@ func init() {
 
 func (g *vgen) intVal(bits int) int64 {
 	var v int64
+	if g.p.extreme {
+		v = pick(g.t, "iext", []int64{math.MinInt64, math.MaxInt64, math.MinInt64 + 1, -1 << 62})
+		switch bits {
+		case 8:
+			return pick(g.t, "iext8", []int64{math.MinInt8, math.MaxInt8})
+		case 16:
+			return pick(g.t, "iext16", []int64{math.MinInt16, math.MaxInt16})
+		case 32:
+			return pick(g.t, "iext32", []int64{math.MinInt32, math.MaxInt32})
+		}
+		return v
+	}
 	switch weighted(g.t, "ic", 4, 3, 3) {
 	case 0:
 		v = pick(g.t, "ib", intBoundaries)
@@ -556,6 +574,18 @@ func (g *vgen) intVal(bits int) int64 {
 
 func (g *vgen) uintVal(bits int) uint64 {
 	var v uint64
+	if g.p.extreme {
+		v = pick(g.t, "uext", []uint64{math.MaxUint64, 1 << 63, math.MaxUint64 - 1})
+		switch bits {
+		case 8:
+			return math.MaxUint8
+		case 16:
+			return math.MaxUint16
+		case 32:
+			return math.MaxUint32
+		}
+		return v
+	}
 	switch weighted(g.t, "uc", 4, 3, 3) {
 	case 0:
 		v = pick(g.t, "ub", uintBoundaries)
@@ -769,6 +799,9 @@ func (g *vgen) val(ts *TSpec, opt string, depth int) Val {
 	}
 	switch u.Kind {
 	case KBool:
+		if g.p.extreme {
+			return Val{B: true}
+		}
 		return Val{B: rapid.Bool().Draw(g.t, "b")}
 	case KInt, KInt8, KInt16, KInt32, KInt64:
 		return Val{I: g.intVal(u.Kind.Bits())}
